@@ -249,3 +249,26 @@ macro_rules! vcover {
         }
     }};
 }
+
+/// Like `harnesses!` with additional `kani::stub` pairs per harness (the external ixdtf parser is replaced by a
+/// nondeterministic record source under Kani; natively the same body renders the record as text and runs the real parser).
+#[macro_export]
+macro_rules! harnesses_stubbed {
+    ($reg:ident; $( $name:ident [unwind $u:expr] [stub $orig:path => $repl:path] = |$s:ident| $body:expr ;)*) => {
+        $(
+            #[cfg(kani)]
+            #[kani::proof]
+            #[kani::unwind($u)]
+            #[kani::stub(alloc::fmt::format, $crate::src::fmt_stub)]
+            #[kani::stub($orig, $repl)]
+            fn $name() {
+                let mut src = $crate::src::KaniSrc;
+                let $s = &mut src;
+                $body;
+            }
+        )*
+        pub const $reg: &[(&str, $crate::src::ReplayFn)] = &[
+            $( (stringify!($name), (|$s: &mut $crate::src::ReplaySrc| { $body; }) as $crate::src::ReplayFn), )*
+        ];
+    };
+}
